@@ -3,6 +3,7 @@
 package verifharness
 
 import (
+	"fmt"
 	"math/rand"
 	"os"
 	"testing"
@@ -254,6 +255,10 @@ func runCtlHistory(t *testing.T, rec *Recorder, r *rand.Rand, profile string, st
 			}
 			time.Sleep(time.Duration(d) * time.Millisecond)
 			var err error
+			if r.Intn(80) == 0 {
+				// the curve cannot be evaluated (its sensor is unreadable): the cycle fails, nothing is written, regulation ends
+				c.Curve.Err = fmt.Errorf("sensor unreadable")
+			}
 			if profile == "C05" && r.Intn(12) == 0 {
 				_, err = c.CycleRaced(cv, d)
 			} else {
